@@ -2,6 +2,7 @@ package rules
 
 import (
 	"fmt"
+	"os"
 	"go/constant"
 	"go/token"
 	"regexp"
@@ -14,8 +15,9 @@ import (
 
 func init() { Registry["C14"] = c14 }
 
-// appendedPieces collects the elements that are appended to a slice built up by append calls
-// (elements of variadic lists, and spread slices).
+// appendedPieces collects the elements of a slice built up by literals and append calls (elements of variadic
+// lists; a spread argument that is itself such a slice is looked into, any other spread value - e.g. the result
+// of a path-splitting function - counts as one piece).
 func appendedPieces(s *core.Sym) []*core.Sym {
 	var out []*core.Sym
 	seen := map[string]bool{}
@@ -26,20 +28,37 @@ func appendedPieces(s *core.Sym) []*core.Sym {
 			out = append(out, z)
 		}
 	}
-	s.Walk(func(z *core.Sym) bool {
+	var rec func(z *core.Sym, d int)
+	isSliceExpr := func(z *core.Sym) bool {
+		return z.Op == "list" || z.Op == "phi" || (z.Op == "call" && z.Name == "builtin.append")
+	}
+	rec = func(z *core.Sym, d int) {
+		if d > 12 {
+			return
+		}
 		switch {
 		case z.Op == "list":
 			for _, a := range z.Args {
 				add(a)
 			}
-			return false
+		case z.Op == "phi":
+			for _, a := range z.Args {
+				if isSliceExpr(a) {
+					rec(a, d+1)
+				}
+			}
 		case z.Op == "call" && z.Name == "builtin.append" && len(z.Args) == 2:
-			if z.Args[1].Op != "list" {
+			if isSliceExpr(z.Args[0]) {
+				rec(z.Args[0], d+1)
+			}
+			if isSliceExpr(z.Args[1]) {
+				rec(z.Args[1], d+1)
+			} else if z.Args[1].Op != "cycle" {
 				add(z.Args[1])
 			}
 		}
-		return true
-	})
+	}
+	rec(s, 0)
 	return out
 }
 
@@ -53,50 +72,24 @@ func c14(e *Env) {
 		r.Ob("R1", "TempDir", "anchor").Unknown("-", "(*Task).TempDir not found")
 		return
 	}
-	sy := p.NewSymbolizer(nil)
-	var sumCall, joinCall *ssa.Call
-	var ret *ssa.Return
-	for _, b := range td.Blocks {
-		for _, in := range b.Instrs {
-			switch x := in.(type) {
-			case *ssa.Call:
-				if f := x.Call.StaticCallee(); f != nil {
-					switch f.String() {
-					case "crypto/sha1.Sum", "crypto/sha256.Sum256", "crypto/sha1.New":
-						sumCall = x
-					}
-				}
-			case *ssa.Return:
-				ret = x
-			}
-		}
-	}
+	id := e.tempDirIdentity(td)
 	ob1 := func(k, d string) *core.Obligation { return r.Ob("R1", "TempDir:"+k, d) }
-	if sumCall == nil || ret == nil {
-		ob1("hash", "the identity is hashed").Unknown(core.FuncName(td), "no sha1.Sum call in Task.TempDir")
+	if id == nil {
+		ob1("hash", "the identity pieces are joined (or streamed) into one SHA-1").Unknown(core.FuncName(td), "no sha1.Sum(Join(pieces, sep)) and no hash.Write loop over pieces found in Task.TempDir's call tree")
 		return
 	}
-	pre := sy.InFunc(td, sumCall.Call.Args[0])
-	// find the join call inside the pre-image
-	var joinSym *core.Sym
-	pre.Walk(func(z *core.Sym) bool {
-		if z.Op == "call" && z.Name == "strings.Join" && joinSym == nil {
-			joinSym = z
-			if c, ok := z.Val.(*ssa.Call); ok {
-				joinCall = c
-			}
-		}
-		return joinSym == nil
-	})
-	where := e.where(sumCall)
-	if joinSym == nil {
-		ob1("hash", "the identity pieces are joined and hashed").Unknown(where, "pre-image is not a strings.Join of pieces: "+trunc(pre.String(), 200))
-		return
-	}
-	pieces := appendedPieces(joinSym.Args[0])
+	sy, g, ret, pre, piecesSym, sepSym, where, joinWhere, pieces := id.sy, id.g, id.ret, id.pre, id.piecesSym, id.sepSym, id.where, id.joinWhere, id.pieces
+	joinSym := &core.Sym{Op: "call", Name: "strings.Join", Args: []*core.Sym{piecesSym, sepSym}}
 	var strs []string
 	for _, pc := range pieces {
 		strs = append(strs, pc.String())
+	}
+	if os.Getenv("RULE_DEBUG") == "C14" {
+		fmt.Println("pre:", pre.String())
+		fmt.Println("piecesSym:", piecesSym.String())
+		for _, x := range strs {
+			fmt.Println("  piece:", x)
+		}
 	}
 	has := func(pred func(pc *core.Sym, s string) bool) (string, bool) {
 		for i, pc := range pieces {
@@ -175,20 +168,15 @@ func c14(e *Env) {
 		// the helpers that deliver keys must sort them
 		helpers := map[*ssa.Function]bool{}
 		pre.Walk(func(w *core.Sym) bool {
-			if w.Op == "call" && w.Callee != nil && p.IsLib(w.Callee) && len(w.Args) == 1 && w.Args[0].Op == "field" {
-				if _, isMap := w.Args[0].Val.Type().Underlying().(interface{ Key() interface{} }); !isMap {
-					helpers[w.Callee] = true
-				}
+			if w.Op == "call" && w.Callee != nil && p.IsLib(w.Callee) && w.Callee.Blocks != nil {
+				helpers[w.Callee] = true
 			}
 			return true
 		})
 		okAll := true
 		n := 0
 		for h := range helpers {
-			if !strings.Contains(strings.ToLower(h.Name()), "keys") && !returnsSlice(h) {
-				continue
-			}
-			if !rangesMap(h) {
+			if !returnsSlice(h) || !rangesMap(h) {
 				continue
 			}
 			n++
@@ -205,10 +193,7 @@ func c14(e *Env) {
 	ob3 := r.Ob("R3", "TempDir:join-separator", "the hashed pieces are joined with a non-empty separator that cannot occur inside a piece (or are length-prefixed), so different identities give different pre-images")
 	sep := joinSym.Args[1]
 	if sep.Op == "lit" && sep.Lit == "" {
-		jw := where
-		if joinCall != nil {
-			jw = e.where(joinCall)
-		}
+		jw := joinWhere
 		ob3.Fail(jw, "strings.Join(pieces, \"\"): the encoding is not injective - e.g. in-paths ab/c and a/bc, or parameters {x=1y_2,y=3} and {x=1,y=2y_3}, produce the same pre-image and therefore the same temp dir")
 	} else if sep.Op == "lit" {
 		ob3.OK(where, "separator "+sep.String())
@@ -216,35 +201,105 @@ func c14(e *Env) {
 		ob3.Unknown(where, "separator is not a constant: "+sep.String())
 	}
 	// ---- R4 shape and length
-	e.c14Shape(td, full, pre, where)
+	e.c14Shape(g, sy, td, full, pre, where)
 	// ---- R5 carrier excluded (fixed F5)
 	ob5 := r.Ob("R5", "TempDir:joined-port-carrier-excluded", "the path of an in-IP that only carries a sub-stream (joined port; random temp-file name) does not enter the identity")
 	found := false
-	for _, b := range td.Blocks {
-		for _, in := range b.Instrs {
-			c, ok := in.(*ssa.Call)
-			if !ok {
-				continue
-			}
-			if bi, ok := c.Call.Value.(*ssa.Builtin); !ok || bi.Name() != "append" {
-				continue
-			}
-			s := sy.InFunc(td, c.Call.Args[1]).String()
-			if !(strings.Contains(s, fnPath+"(") && strings.Contains(s, "$t.InIPs") && !strings.Contains(s, "subStreamIPs[")) {
-				continue
-			}
-			found = true
-			gs := guardsOf(sy, td, c)
-			if strings.Contains(gs, "subStreamIPs") || strings.Contains(gs, ".join") {
-				ob5.OK(e.where(c), "guarded by "+trunc(gs, 160))
-			} else {
-				ob5.Fail(e.where(c), "the path of every in-IP is hashed unconditionally, including the carrier IP of a joined port whose path is a fresh ioutil.TempFile name: the same task gets a different temp dir in every run, so leftovers are never detected")
-			}
+	for _, n := range g.Nodes {
+		if !n.IsBuiltin("append") || n.Kind == core.KAfter || len(n.Call.Args) < 2 {
+			continue
+		}
+		as := sy.InCtx(n.Ctx, n.Call.Args[1]).String()
+		if !(strings.Contains(as, fnPath+"(") && strings.Contains(as, "$t.InIPs") && !strings.Contains(as, "subStreamIPs[")) {
+			continue
+		}
+		found = true
+		gs := core.GuardString(g.Guards(n, sy))
+		if strings.Contains(gs, "subStreamIPs") || strings.Contains(gs, ".join") {
+			ob5.OK(g.Where(n), "guarded by "+trunc(gs, 160))
+		} else {
+			ob5.Fail(g.Where(n), "the path of every in-IP is hashed unconditionally, including the carrier IP of a joined port whose path is a fresh ioutil.TempFile name: the same task gets a different temp dir in every run, so leftovers are never detected")
 		}
 	}
 	if !found {
 		ob5.Unknown(where, "append of the in-IP paths not found")
 	}
+}
+
+// tdIdentity: the SHA-1 pre-image of the temp-dir name, as found in Task.TempDir's call tree.
+type tdIdentity struct {
+	sy                *core.Symbolizer
+	g                 *core.XG
+	ret               *ssa.Return
+	pre               *core.Sym
+	piecesSym, sepSym *core.Sym
+	pieces            []*core.Sym
+	where, joinWhere  string
+}
+
+func (e *Env) tempDirIdentity(td *ssa.Function) *tdIdentity {
+	p := e.P
+	// a symboliser that looks through every private helper, whatever its size: the identity may be assembled
+	// by helper functions
+	// by helper functions. Helpers that collect the keys of a map into a slice stay opaque: R2 checks that they sort.
+	sy := p.NewSymbolizer(func(f *ssa.Function) bool {
+		return (f.Object() == nil || !f.Object().Exported()) && !(rangesMap(f) && returnsSlice(f))
+	})
+	sy.MaxDepth = 10
+	g := e.XG(td)
+	if g == nil {
+		return nil
+	}
+	var ret *ssa.Return
+	for _, b := range td.Blocks {
+		for _, in := range b.Instrs {
+			if x, ok := in.(*ssa.Return); ok {
+				ret = x
+			}
+		}
+	}
+	// the pre-image: (a) sha1.Sum([]byte(strings.Join(pieces, sep)))  (b) h := sha1.New(); h.Write([]byte(piece)) in a loop over pieces
+	var pre, sepSym *core.Sym
+	var piecesSym *core.Sym
+	where := core.FuncName(td)
+	var joinWhere string
+	for _, n := range g.Nodes {
+		switch {
+		case n.IsCallTo("crypto/sha1.Sum", "crypto/sha256.Sum256"):
+			pre = sy.InCtx(n.Ctx, n.Call.Args[0])
+			where = g.Where(n)
+			pre.Walk(func(z *core.Sym) bool {
+				if z.Op == "call" && z.Name == "strings.Join" && piecesSym == nil && len(z.Args) == 2 {
+					piecesSym, sepSym = z.Args[0], z.Args[1]
+				}
+				if z.Op == "concat" && z.Name == "join" && piecesSym == nil {
+					piecesSym, sepSym = &core.Sym{Op: "list", Args: z.Args}, &core.Sym{Op: "lit", Lit: "?"}
+				}
+				return piecesSym == nil
+			})
+			joinWhere = where
+		case n.Call != nil && n.Call.IsInvoke() && n.Call.Method.Name() == "Write" && strings.Contains(n.Call.Value.Type().String(), "hash.Hash"):
+			arg := sy.InCtx(n.Ctx, n.Call.Args[0])
+			// convert(pieces[i]) inside a loop over pieces
+			var coll *core.Sym
+			arg.Walk(func(z *core.Sym) bool {
+				if (z.Op == "elem" || z.Op == "rangeval") && coll == nil {
+					coll = z.Args[0]
+				}
+				return coll == nil
+			})
+			if coll != nil {
+				if _, ok := e.loopOver(g, n, ""); ok {
+					pre, piecesSym, sepSym = arg, coll, &core.Sym{Op: "lit", Lit: ""}
+					where, joinWhere = g.Where(n), g.Where(n)
+				}
+			}
+		}
+	}
+	if pre == nil || piecesSym == nil || ret == nil {
+		return nil
+	}
+	return &tdIdentity{sy: sy, g: g, ret: ret, pre: pre, piecesSym: piecesSym, sepSym: sepSym, pieces: appendedPieces(piecesSym), where: where, joinWhere: joinWhere}
 }
 
 func returnsSlice(f *ssa.Function) bool {
@@ -295,9 +350,9 @@ func sortsResult(f *ssa.Function) bool {
 	return okAny
 }
 
-func (e *Env) c14Shape(td *ssa.Function, full, pre *core.Sym, where string) {
+func (e *Env) c14Shape(g *core.XG, sy *core.Symbolizer, td *ssa.Function, full, pre *core.Sym, where string) {
 	r := e.R
-	p := e.P
+	_ = e.P
 	ob := r.Ob("R4", "TempDir:template", "the name is <prefix> \".\" hex(sha1(pre-image)): one hash of the whole identity, hex encoded")
 	fl := full.Flat()
 	okTpl := len(fl) >= 3 && fl[len(fl)-2].Op == "lit" && fl[len(fl)-2].Lit == "." && isCallSym(fl[len(fl)-1], "encoding/hex.EncodeToString")
@@ -315,23 +370,36 @@ func (e *Env) c14Shape(td *ssa.Function, full, pre *core.Sym, where string) {
 	obS.Check(bad == "", where, "roots are task fields and constants only", "the temp-dir name depends on "+bad)
 	// length threshold
 	obL := r.Ob("R4", "TempDir:length", "an over-long prefix is folded into the hash: with threshold T on len(prefix), T + 1 + 40 <= 255, and the fallback prefix is the short constant")
-	var cond *ssa.BinOp
-	for _, b := range td.Blocks {
-		if iff, ok := b.Instrs[len(b.Instrs)-1].(*ssa.If); ok {
-			if bo, ok := iff.Cond.(*ssa.BinOp); ok && mentionsLen(bo) {
-				cond = bo
+	// the fold: the append that puts the name prefix (a piece mentioning the sanitised process name, which is not
+	// the bare task name) among the hashed pieces; its guard is the length test
+	var fold *core.Node
+	for _, n := range g.Nodes {
+		if !n.IsBuiltin("append") || n.Kind == core.KAfter || len(n.Call.Args) < 2 {
+			continue
+		}
+		for _, pc := range appendedPieces(&core.Sym{Op: "call", Name: "builtin.append", Args: []*core.Sym{{Op: "nil"}, sy.InCtx(n.Ctx, n.Call.Args[1])}}) {
+			ps := pc.String()
+			if ps != "$t.Name" && strings.Contains(ps, "$t.Name") && strings.Contains(ps, "ReplaceAllString") {
+				fold = n
 			}
 		}
 	}
-	if cond == nil {
-		obL.Fail(where, "no test of the prefix length: a long process name yields a path segment over 255 bytes")
+	if fold == nil {
+		obL.Fail(where, "no test of the prefix length with the prefix folded into the hash: a long process name yields a path segment over 255 bytes")
 	} else {
-		maxLen, ok := maxLenWhenFalse(cond)
+		var maxLen int64
+		okB := false
+		var at *ssa.If
+		for _, gd := range g.Guards(fold, sy) {
+			if c, over, ok := gd.LenBound(); ok && over {
+				maxLen, okB, at = c, true, gd.If
+			}
+		}
 		hexLen := int64(40)
-		if !ok {
-			obL.Unknown(e.where(cond), "length test not recognised: "+cond.String())
+		if !okB {
+			obL.Unknown(g.Where(fold), "the fold of the prefix into the hash is not guarded by a recognised length test (len(prefix) > T): "+core.GuardString(g.Guards(fold, sy)))
 		} else if maxLen+1+hexLen > 255 {
-			obL.Fail(e.where(cond), fmt.Sprintf("a prefix of %d bytes is not folded into the hash: %d + 1 + %d = %d > 255 bytes, not a valid path segment", maxLen, maxLen, hexLen, maxLen+1+hexLen))
+			obL.Fail(e.where(at), fmt.Sprintf("a prefix of %d bytes is not folded into the hash: %d + 1 + %d = %d > 255 bytes, not a valid path segment", maxLen, maxLen, hexLen, maxLen+1+hexLen))
 		} else {
 			// fallback prefix
 			alts := []string{}
@@ -350,50 +418,58 @@ func (e *Env) c14Shape(td *ssa.Function, full, pre *core.Sym, where string) {
 					short = true
 				}
 			}
-			obL.Check(short, e.where(cond), fmt.Sprintf("max unfolded prefix %d + 1 + 40 = %d <= 255; fallback prefix constant", maxLen, maxLen+41), "the fallback prefix after folding is not a short constant: "+strings.Join(alts, " | "))
+			obL.Check(short, e.where(at), fmt.Sprintf("max unfolded prefix %d + 1 + 40 = %d <= 255; fallback prefix constant", maxLen, maxLen+41), "the fallback prefix after folding is not a short constant: "+strings.Join(alts, " | "))
 		}
 	}
 	// sanitiser
 	obZ := r.Ob("R4", "sanitiser:no-slash", "the process name is sanitised so that the result contains no '/' (a single path segment)")
-	sf := p.Func("sanitizePathFragment")
-	used := false
-	full.Walk(func(z *core.Sym) bool {
-		if z.Op == "call" && z.Callee == sf && sf != nil {
-			used = true
+	// every occurrence of the task name in the prefix lies inside a regexp ReplaceAllString call
+	var pat, repl string
+	var sanCall *core.Sym
+	nameOutside := false
+	var walk func(z *core.Sym, inside bool)
+	walk = func(z *core.Sym, inside bool) {
+		if z.Op == "call" && z.Name == "(*regexp.Regexp).ReplaceAllString" && len(z.Args) == 3 {
+			sanCall = z
+			inside = true
 		}
-		return true
-	})
-	if sf == nil || !used {
+		if z.Op == "field" && z.String() == "$t.Name" && !inside {
+			nameOutside = true
+		}
+		for _, a := range z.Args {
+			walk(a, inside)
+		}
+	}
+	for _, part := range fl[:max(0, len(fl)-1)] {
+		walk(part, false)
+	}
+	if sanCall == nil || nameOutside {
 		obZ.Fail(where, "the process name enters the temp-dir prefix without passing through the sanitiser")
 		return
 	}
-	var pat, repl string
-	for _, b := range sf.Blocks {
-		for _, in := range b.Instrs {
-			c, ok := in.(*ssa.Call)
-			if !ok || c.Call.StaticCallee() == nil {
-				continue
-			}
-			switch c.Call.StaticCallee().String() {
-			case "regexp.MustCompile", "regexp.Compile":
-				if k, ok := c.Call.Args[0].(*ssa.Const); ok && k.Value != nil && k.Value.Kind() == constant.String {
-					pat = constant.StringVal(k.Value)
-				}
-			case "(*regexp.Regexp).ReplaceAllString":
-				if k, ok := c.Call.Args[len(c.Call.Args)-1].(*ssa.Const); ok && k.Value != nil && k.Value.Kind() == constant.String {
-					repl = constant.StringVal(k.Value)
-				}
-			}
+	sanCall.Args[0].Walk(func(z *core.Sym) bool {
+		if z.Op == "call" && (z.Name == "regexp.MustCompile" || z.Name == "regexp.Compile") && len(z.Args) == 1 && z.Args[0].Op == "lit" {
+			pat = z.Args[0].Lit
+		}
+		return true
+	})
+	if sanCall.Args[2].Op == "lit" {
+		repl = sanCall.Args[2].Lit
+	}
+	sanWhere := where
+	if sanCall.Val != nil {
+		if in, ok := sanCall.Val.(ssa.Instruction); ok {
+			sanWhere = e.where(in)
 		}
 	}
 	re, err := regexp.Compile(pat)
 	if pat == "" || err != nil {
-		obZ.Unknown(e.where(sf.Blocks[0].Instrs[0]), "sanitiser pattern not a constant regular expression")
+		obZ.Unknown(sanWhere, "sanitiser pattern not a constant regular expression: "+sanCall.String())
 		return
 	}
 	probe := "a/b\x00c d\\e..//f"
 	out := re.ReplaceAllString(strings.ToLower(probe), repl)
-	obZ.Check(!strings.Contains(out, "/") && !strings.Contains(repl, "/"), e.where(sf.Blocks[0].Instrs[0]), fmt.Sprintf("pattern %q replaces '/' (probe %q → %q)", pat, probe, out), fmt.Sprintf("the sanitiser pattern %q lets '/' through (probe → %q): the temp dir name is no longer a single path segment", pat, out))
+	obZ.Check(!strings.Contains(out, "/") && !strings.Contains(repl, "/"), sanWhere, fmt.Sprintf("pattern %q replaces '/' (probe %q → %q)", pat, probe, out), fmt.Sprintf("the sanitiser pattern %q lets '/' through (probe → %q): the temp dir name is no longer a single path segment", pat, out))
 }
 
 func mentionsLen(bo *ssa.BinOp) bool {
